@@ -499,6 +499,153 @@ def should_run_item():
             "Definition gen_should_run (sel_none al_none vc_none same_commit older : bool) : bool := %s.\n" % expr)
 
 
+def select_item():
+    """RunExperiment._retrieve_most_relevant_existing_version: how the method starts, the classification loop, the
+    closest-version loop (one iteration as a decision over the loop state) and what is returned after the loops"""
+    f = _find_method("conductor/task_types/run.py", "RunExperiment", "_retrieve_most_relevant_existing_version")
+    body = _body_without_docstring(f)
+    LATEST = "ctx.version_index.get_latest_output_version(self._identifier)"
+    seen = {"loop1": 0, "loop2": 0, "lists": False, "init": set()}
+    names = {}          # local aliases of recognised expressions
+
+    def flat(node):
+        src = ast.unparse(node)
+        return names.get(src, src)
+
+    def classify_loop(st):
+        if ast.unparse(st.target) != "version" or flat(st.iter) != "ALL" or st.orelse or len(st.body) != 1 or not isinstance(st.body[0], ast.If):
+            raise Unsupported("the first loop is not `for version in existing_versions: if ...`")
+        leaves = {"version.commit_hash is None": "commit_none",
+                  "ctx.git.is_ancestor(HEADHASH, candidate_ancestor_hash=version.commit_hash)": "is_anc",
+                  "ctx.git.is_ancestor(HEADHASH, version.commit_hash)": "is_anc"}
+
+        def act(stmts):
+            if len(stmts) != 1:
+                raise Unsupported("a branch of the first loop has %d statements" % len(stmts))
+            src = ast.unparse(stmts[0])
+            if src == "null_commit_versions.append(version)":
+                return "0%N"
+            if src == "ancestor_versions.append(version)":
+                return "1%N"
+            if isinstance(stmts[0], ast.If):
+                return branch(stmts[0])
+            raise Unsupported("statement of the first loop outside the supported fragment: %s" % src)
+
+        def branch(i):
+            test = ast.unparse(i.test).replace("curr_commit.hash", "HEADHASH")
+            if test not in leaves:
+                raise Unsupported("test of the first loop outside the supported fragment: %s" % test)
+            return "(if %s then %s else %s)" % (leaves[test], act(i.body), act(i.orelse) if i.orelse else "2%N")
+
+        return branch(st.body[0])
+
+    def closest_loop(st):
+        if ast.unparse(st.target) != "v" or ast.unparse(st.iter) != "ancestor_versions" or st.orelse:
+            raise Unsupported("the second loop is not `for v in ancestor_versions:`")
+        leaves = {"selected_version is None": "sel_none", "dist": "dist", "closest_distance": "closest", "v.timestamp": "tsv", "selected_version.timestamp": "tssel"}
+        n_ops = dict(N_OPS)
+        n_ops[ast.Gt] = _Swap("(%s <? %s)")
+        n_ops[ast.GtE] = _Swap("(%s <=? %s)")
+        stmts = [x for x in st.body if not isinstance(x, ast.Assert)]
+        if len(stmts) != 2 or ast.unparse(stmts[0]).replace("curr_commit.hash", "HEADHASH") != "dist = ctx.git.get_distance(HEADHASH, v.commit_hash)" or not isinstance(stmts[1], ast.If):
+            raise Unsupported("the second loop's body is not `dist = get_distance(curr, v.commit_hash); if ...`")
+
+        def act(stmts2):
+            got = sorted(ast.unparse(x) for x in stmts2)
+            if got == ["closest_distance = dist", "selected_version = v"]:
+                return "1%N"
+            if got == ["selected_version = v"]:
+                return "2%N"
+            if len(stmts2) == 1 and isinstance(stmts2[0], ast.If):
+                return branch(stmts2[0])
+            raise Unsupported("a branch of the second loop does something else: %s" % got)
+
+        def branch(i):
+            return "(if %s then %s else %s)" % (_bexpr(i.test, leaves, n_ops, suffix="%N"), act(i.body), act(i.orelse) if i.orelse else "0%N")
+
+        return branch(stmts[1])
+
+    out = {}
+
+    def block(stmts, inside_anc=False):
+        if not stmts:
+            raise Unsupported("a path of the method ends without a return")
+        st, rest = stmts[0], stmts[1:]
+        src = ast.unparse(st)
+        if isinstance(st, ast.Assert):
+            return block(rest, inside_anc)
+        if isinstance(st, ast.Return):
+            v = "None" if st.value is None else flat(st.value)
+            if v == LATEST:
+                return "0%N"
+            if v == "selected_version":
+                if not (inside_anc and seen["loop2"] == 1):
+                    raise Unsupported("`return selected_version` is not preceded by the closest-version loop")
+                return "1%N"
+            if v == "max(null_commit_versions, key=lambda v: v.timestamp)":
+                return "2%N"
+            if v == "None":
+                return "3%N"
+            raise Unsupported("the method returns something else: %s" % src)
+        if isinstance(st, ast.Assign) and len(st.targets) == 1 and isinstance(st.targets[0], ast.Name):
+            tgt, val = st.targets[0].id, ast.unparse(st.value)
+            if val == LATEST:
+                names[tgt] = LATEST
+            elif (tgt, val) == ("curr_commit", "ctx.current_commit"):
+                pass
+            elif (tgt, val) == ("existing_versions", "ctx.version_index.get_all_versions_for_task(self._identifier)"):
+                names["existing_versions"] = "ALL"
+            elif (tgt, val) in (("ancestor_versions", "[]"), ("null_commit_versions", "[]")):
+                if seen["loop1"]:
+                    raise Unsupported("a version list is reset after the first loop")
+                seen["init"].add(tgt)
+            elif (tgt, val) in (("selected_version", "None"), ("closest_distance", "-1")):
+                if seen["loop2"]:
+                    raise Unsupported("the loop state is reset after the second loop")
+                seen["init"].add(tgt)
+            else:
+                raise Unsupported("assignment outside the supported fragment: %s" % src)
+            return block(rest, inside_anc)
+        if isinstance(st, ast.For):
+            if not seen["loop1"]:
+                if seen["init"] != {"ancestor_versions", "null_commit_versions"} or names.get("existing_versions") != "ALL":
+                    raise Unsupported("the first loop does not start from two empty lists over all versions of the task")
+                out["classify"] = classify_loop(st)
+                seen["loop1"] += 1
+            elif inside_anc and not seen["loop2"]:
+                if not {"selected_version", "closest_distance"} <= seen["init"]:
+                    raise Unsupported("the second loop does not start from (None, -1)")
+                out["closest"] = closest_loop(st)
+                seen["loop2"] += 1
+            else:
+                raise Unsupported("an unexpected loop: %s" % src.splitlines()[0])
+            return block(rest, inside_anc)
+        if isinstance(st, ast.If):
+            leaves = {"not ctx.uses_git": "(negb uses_git)", "curr_commit is None": "cc_none"}
+            if seen["loop1"]:
+                leaves = {"len(ancestor_versions)": "n_anc", "len(null_commit_versions)": "n_null", "len(existing_versions)": "n_all"}
+            test = _bexpr(st.test, leaves, NAT_OPS)
+            is_anc_test = ast.unparse(st.test) == "len(ancestor_versions) > 0"
+            if not seen["loop1"] and ast.unparse(st.test) not in leaves:
+                raise Unsupported("test before the first loop outside the supported fragment: %s" % ast.unparse(st.test))
+            then = block(st.body, inside_anc or is_anc_test)
+            other = block(st.orelse, inside_anc) if st.orelse else block(rest, inside_anc)
+            return "(if %s then %s else %s)" % (test, then, other)
+        raise Unsupported("statement outside the supported fragment: %s" % src)
+
+    top = block(body)
+    if seen["loop1"] != 1 or seen["loop2"] != 1:
+        raise Unsupported("the two loops were not both found")
+    return ("(* conductor/task_types/run.py RunExperiment._retrieve_most_relevant_existing_version.\n"
+            "   gen_sel_top: what the method returns -- 0 get_latest_output_version(task), 1 the version selected by the second loop,\n"
+            "   2 max(null_commit_versions, key=timestamp), 3 None -- from uses_git, `current_commit is None` and the lengths of the lists the first loop built;\n"
+            "   gen_sel_classify: the first loop per version -- 0 appended to null_commit_versions, 1 appended to ancestor_versions, 2 neither;\n"
+            "   gen_sel_closest: the second loop per version over its state (selected_version, closest_distance) -- 0 unchanged, 1 both := (v, dist), 2 selected_version := v *)\n"
+            "Definition gen_sel_top (uses_git cc_none : bool) (n_anc n_null n_all : nat) : N := %s.\n"
+            "Definition gen_sel_classify (commit_none is_anc : bool) : N := %s.\n"
+            "Definition gen_sel_closest (sel_none : bool) (dist closest tsv tssel : N) : N := %s.\n" % (top, out["classify"], out["closest"]))
+
+
 def _find_function(relpath, name):
     tree = ast.parse(open(os.path.join(SRC, relpath), encoding="utf-8").read())
     for node in tree.body:
@@ -1041,6 +1188,150 @@ def restore_item():
             % (lst(pre), lst(body), lst(post), lst(h_pre), lst(f_pre)))
 
 
+def archive_item():
+    """cli/archive.py: (a) handle_output_path as a decision over what the file system says about `-o` -- 0 a generated
+    name in cond-out, 1 a generated name in the given directory, 2 the given path, 3 raise OutputFileExists, 4 raise
+    OutputPathDoesNotExist; (b) main as the ORDER of its steps -- 1 handle_output_path, 2 compute_tasks_to_archive,
+    3 the empty-closure test; in the try block 4 unlink(archive index), 5 create_or_load, 6 copy_entries_to, 7 the
+    nothing-copied test, 8 commit_changes, 9 create_archive (the only writer of the output file), 10 print; handler:
+    11 unlink(output file), then re-raise; finally: 4; (c) create_archive must be `tar czf <output>` + wait + exit
+    status test and raise nothing but CreateArchiveFailed."""
+    # ---- (a)
+    f = _find_function("conductor/cli/archive.py", "handle_output_path")
+    leaves = {"raw_output_path is None": "(negb given)", "output_path.exists()": "exists_", "output_path.is_dir()": "is_dir",
+              "output_path.parent.exists()": "parent_exists", "output_path.parent.is_dir()": "parent_is_dir"}
+    binding = {}
+
+    def cond(node):
+        src = ast.unparse(node)
+        if src in leaves:
+            return leaves[src]
+        if isinstance(node, ast.UnaryOp) and isinstance(node.op, ast.Not):
+            return "(negb %s)" % cond(node.operand)
+        if isinstance(node, ast.BoolOp):
+            op = {ast.And: " && ", ast.Or: " || "}[type(node.op)]
+            return "(" + op.join(cond(v) for v in node.values) + ")"
+        raise Unsupported("handle_output_path: condition outside the supported fragment: %s" % src)
+
+    def block(stmts, bound):
+        if not stmts:
+            raise Unsupported("a path of handle_output_path ends without a return")
+        st, rest = stmts[0], stmts[1:]
+        src = ast.unparse(st)
+        if isinstance(st, ast.Assign) and len(st.targets) == 1 and ast.unparse(st.targets[0]) == "output_path":
+            val = ast.unparse(st.value)
+            if val == "pathlib.Path(ctx.output_path, generate_archive_name())":
+                return block(rest, "GEN")
+            if val == "pathlib.Path(raw_output_path)":
+                return block(rest, "GIVEN")
+            raise Unsupported("handle_output_path: output_path = %s" % val)
+        if isinstance(st, ast.Return):
+            val = ast.unparse(st.value)
+            if val == "output_path" and bound == "GEN":
+                return "0%N"
+            if val == "output_path / generate_archive_name()" and bound == "GIVEN":
+                return "1%N"
+            if val == "output_path" and bound == "GIVEN":
+                return "2%N"
+            raise Unsupported("handle_output_path returns %s" % val)
+        if isinstance(st, ast.Raise):
+            val = ast.unparse(st.exc)
+            if val == "OutputFileExists()":
+                return "3%N"
+            if val == "OutputPathDoesNotExist()":
+                return "4%N"
+            raise Unsupported("handle_output_path raises %s" % val)
+        if isinstance(st, ast.If):
+            if bound is None and ast.unparse(st.test) != "raw_output_path is None":
+                raise Unsupported("handle_output_path tests the path before it is bound")
+            then = block(list(st.body) + rest, bound)           # a branch that does not return falls through to what follows
+            other = block(list(st.orelse) + rest, bound)
+            return "(if %s then %s else %s)" % (cond(st.test), then, other)
+        raise Unsupported("handle_output_path: statement outside the supported fragment: %s" % src)
+
+    decision = block(_body_without_docstring(f), None)
+    del binding
+    # ---- (b)
+    m = _find_function("conductor/cli/archive.py", "main")
+    calls = [("ctx = Context.from_cwd()", None), ("output_archive_path = handle_output_path(ctx, args.output)", 1),
+             ("tasks_to_archive = compute_tasks_to_archive(ctx, args.task_identifier)", 2),
+             ("archive_index_path = pathlib.Path(ctx.output_path, ARCHIVE_VERSION_INDEX)", None), ("archive_index_path.unlink(missing_ok=True)", 4),
+             ("archive_index = VersionIndex.create_or_load(archive_index_path)", 5), ("total_entry_count = ctx.version_index.copy_entries_to(", 6),
+             ("archive_index.commit_changes()", 8), ("create_archive(ctx, archive_index, output_archive_path, archive_index_path)", 9),
+             ("print(", 10), ("output_archive_path.unlink(missing_ok=True)", 11)]
+    tests = {"tasks_to_archive is not None and len(tasks_to_archive) == 0": 3, "total_entry_count == 0": 7}
+
+    def seq(stmts):
+        out = []
+        for st in stmts:
+            src = ast.unparse(st)
+            if isinstance(st, ast.If) and not st.orelse and ast.unparse(st.test) in tests and len(st.body) == 1 and ast.unparse(st.body[0]) == "raise NoTaskOutputsToArchive()":
+                out.append(tests[ast.unparse(st.test)])
+                continue
+            if isinstance(st, ast.Try) and not st.finalbody and not st.orelse and len(st.body) == 1 and len(st.handlers) == 1 and len(st.handlers[0].body) == 1 \
+                    and ast.unparse(st.body[0]) == "relative_output_path = output_archive_path.relative_to(pathlib.Path.cwd())" \
+                    and ast.unparse(st.handlers[0].body[0]) == "relative_output_path = output_archive_path":
+                continue        # how the path is rendered for the message: no effect
+            for prefix, code in calls:
+                if src.startswith(prefix):
+                    if code is not None:
+                        out.append(code)
+                    break
+            else:
+                if isinstance(st, ast.Raise) and st.exc is None:
+                    out.append(12)
+                    continue
+                if _is_logging(st):
+                    continue
+                raise Unsupported("archive.main: statement outside the supported fragment: %s" % src.splitlines()[0])
+        return out
+
+    body = list(m.body)
+    tries = [k for k, st in enumerate(body) if isinstance(st, ast.Try)]
+    if len(tries) != 1 or tries[0] != len(body) - 1:
+        raise Unsupported("archive.main does not end with its one try block")
+    tr = body[-1]
+    before = seq(body[:-1])
+    if len(tr.handlers) != 1 or tr.handlers[0].type is not None or tr.orelse:
+        raise Unsupported("archive.main: expected one bare `except:`")
+    in_try, on_error, fin = seq(tr.body), seq(tr.handlers[0].body), seq(tr.finalbody)
+    if not on_error or on_error[-1] != 12:
+        raise Unsupported("archive.main: the handler does not re-raise")
+    # the output path may be touched nowhere else in main
+    uses = [ast.unparse(n) for st in body for n in ast.walk(st) if isinstance(n, ast.stmt) and not isinstance(n, (ast.Try, ast.If)) and "output_archive_path" in ast.unparse(n)]
+    allowed = ("output_archive_path = handle_output_path(", "create_archive(ctx, archive_index, output_archive_path,", "relative_output_path = output_archive_path",
+               "output_archive_path.unlink(missing_ok=True)")
+    for u in uses:
+        if not u.startswith(allowed):
+            raise Unsupported("archive.main uses the output path in an unexpected statement: %s" % u.splitlines()[0])
+    # ---- (c)
+    c = _find_function("conductor/cli/archive.py", "create_archive")
+    cb = _body_without_docstring(c)
+    if len(cb) != 2 or not (isinstance(cb[0], ast.Assign) and ast.unparse(cb[0].targets[0]) == "output_dirs_str" and isinstance(cb[0].value, ast.ListComp)) or not isinstance(cb[1], ast.Try):
+        raise Unsupported("create_archive is not `output_dirs_str = [...]; try: ...`")
+    t = cb[1]
+    if t.finalbody or t.orelse or len(t.handlers) != 1 or ast.unparse(t.handlers[0].type) != "OSError" or len(t.body) != 3:
+        raise Unsupported("create_archive: the try block has another shape")
+    popen, wait, test = t.body
+    args_src = ast.unparse(popen)
+    if not (args_src.startswith("process = subprocess.Popen(['tar', 'czf', str(output_archive_path.absolute()), '-C', str(ctx.output_path), ") and args_src.endswith("shell=False)")):
+        raise Unsupported("create_archive does not run `tar czf <output> -C <cond-out> ...`")
+    if ast.unparse(wait) != "process.wait()" or not (isinstance(test, ast.If) and ast.unparse(test.test) == "process.returncode != 0" and not test.orelse):
+        raise Unsupported("create_archive does not wait for tar and test its exit status")
+    raises = [ast.unparse(n.exc) for n in ast.walk(c) if isinstance(n, ast.Raise) and n.exc is not None]
+    if not raises or not all(r.startswith("CreateArchiveFailed()") for r in raises):
+        raise Unsupported("create_archive raises %r" % raises)
+    if any("output_archive_path" in ast.unparse(n) for st in (cb[0], wait, test) for n in [st]) or "output_archive_path" in ast.unparse(t.handlers[0]):
+        raise Unsupported("create_archive touches the output path outside the tar command")
+    lst = lambda l: "[" + "; ".join("%d%%N" % x for x in l) + "]"  # noqa: E731
+    return ("(* conductor/cli/archive.py handle_output_path / main / create_archive (codes in harness/gen_generated.py archive_item) *)\n"
+            "Definition gen_archive_output_decision (given exists_ is_dir parent_exists parent_is_dir : bool) : N := %s.\n"
+            "Definition gen_archive_before_try : list N := %s.\nDefinition gen_archive_try : list N := %s.\n"
+            "Definition gen_archive_on_error : list N := %s.\nDefinition gen_archive_finally : list N := %s.\n"
+            "Definition gen_archive_tar_is_the_only_writer : bool := true.\n"
+            % (decision, lst(before), lst(in_try), lst(on_error), lst(fin)))
+
+
 def version_item():
     """VersionIndex.generate_new_output_version: the timestamp as a function of the clock and the last timestamp"""
     f = _find_method("conductor/execution/version_index.py", "VersionIndex", "generate_new_output_version")
@@ -1105,7 +1396,7 @@ def generate():
         failures["task_type_table"] = "%s: %s" % (type(ex).__name__, ex)
         parts.append("(* task_type_table: NOT TRANSLATED: %s *)\n" % str(ex).replace("*)", "* )"))
     for coqname, fn in (("gen_gate_open", gate_item), ("gen_new_version", version_item), ("gen_loop_goes_on", loop_item), ("gen_wants_slot", slot_item),
-                        ("gen_prune", prune_item), ("gen_should_run", should_run_item), ("gen_validate_args", validate_args_item), ("gen_finish", finish_item), ("gen_record_type", record_type_item), ("gen_tee_iteration", tee_item), ("gen_env_overrides", spawn_item), ("gen_launch_block", abort_item), ("gen_combine_decision", combine_item), ("gen_gc_decision", gc_item), ("gen_restore_before_loop", restore_item)):
+                        ("gen_prune", prune_item), ("gen_should_run", should_run_item), ("gen_sel_top", select_item), ("gen_validate_args", validate_args_item), ("gen_finish", finish_item), ("gen_record_type", record_type_item), ("gen_tee_iteration", tee_item), ("gen_env_overrides", spawn_item), ("gen_launch_block", abort_item), ("gen_combine_decision", combine_item), ("gen_gc_decision", gc_item), ("gen_restore_before_loop", restore_item), ("gen_archive_output_decision", archive_item)):
         try:
             parts.append(fn())
         except Exception as ex:  # pylint: disable=broad-except
